@@ -208,12 +208,18 @@ def main():
     ap.add_argument("--jobs", type=int, default=16)
     ap.add_argument("--files", default="")
     ap.add_argument("--out", default="/tmp/mutsweep.json")
+    ap.add_argument("--recheck", default="")
     args = ap.parse_args()
     files = [f for f in args.files.split(",") if f] or sorted(
         os.path.relpath(os.path.join(d, f), REPO) for d, _, fs in os.walk(os.path.join(REPO, PKG)) for f in fs if f.endswith(".py") and f != "__init__.py")
     muts = generate(files)
     random.Random(args.seed).shuffle(muts)
     muts = muts[:args.max]
+    if args.recheck:
+        # only the survivors of an earlier run (same seed / max): the test suite is not run again
+        prev = json.load(open(args.recheck))
+        keep = {(r["file"], r["line"], r["op"], r["orig"], r["new"]) for r in prev if not r["killed"]}
+        muts = [m for m in muts if (m["file"], m["line"], m["op"], m["orig"], m["new"]) in keep]
     print(f"{len(muts)} mutants", flush=True)
     results = {}
     with ProcessPoolExecutor(max_workers=args.jobs) as ex:
